@@ -204,3 +204,101 @@ theorem C05_never_deeper (pr : EProto α) (cfg : Config) (inch : α) (hinch : in
   rw [← h0]; exact deepest_ge_head cfg inch _ es
 
 end ERP.C05
+
+/-! ## The protocol is not vacuous
+
+In every consistent configuration the commands the protocol is about are admissible: an E-only
+retraction by `A` when nothing is recorded, the matching recovery afterwards, and an extruding
+move while the file is not retracted.  (Together with `goodE_start` — the homed start state is
+consistent for every region list — this shows that `ProtoRun` has non-trivial inhabitants of any
+length.) -/
+namespace ERP.C05
+open ERP T Spec ERP.C04
+set_option linter.unusedSectionVars false
+variable {α : Type} [Field α] [LinearOrder α] [IsStrictOrderedRing α] [MathOps α] [MathSpec α]
+
+/-- the logical E word that moves the extruder by `d` (native mm) from where it is -/
+def eWord (s : FState α) (d : α) : α :=
+  (cur s.position.e + d - (s.position.e.offset + s.position.e.homeOffset)) / s.position.e.unitMultiplier
+
+theorem deltaE_eWord (s : FState α) (d : α) (habs : s.position.e.absoluteMode = true)
+    (hu : s.position.e.unitMultiplier ≠ 0) : T.deltaEOf s (some (eWord s d)) = d := by
+  simp only [T.deltaEOf, setLog, l2n, habs, if_true, eWord, cur, Option.getD_some]
+  field_simp
+  ring
+
+theorem lastValue_single (k c : Char) (v : Option α) :
+    lastValue [(k, v)] c = if k == c then v else none := by
+  unfold lastValue
+  simp only [List.foldl_cons, List.foldl_nil]
+  split
+  · cases v <;> rfl
+  · rfl
+
+/-- an E-only retraction of length `A` is admissible whenever no retraction is recorded -/
+theorem retraction_admissible (pr : EProto α) (cfg : Config) (y : Sys α) (hg : GoodE pr y)
+    (hfw : pr.fw = false) (hn : y.s.lastRetraction = none) (t : Text) :
+    EDialect pr cfg y.s y.virt.ev "G1" { text := t, words := [('E', some (eWord y.s (-pr.A)))], code := "G1" } := by
+  have hu := hg.good.wf.pos.2.2.2.2
+  have hd := deltaE_eWord y.s (-pr.A) hg.einv.abs hu
+  have hr := hg.einv.retr
+  unfold RetrInv at hr; rw [hn] at hr; simp only [hfw] at hr
+  refine ⟨rfl, ?_⟩
+  show (if T.isMoveOf (lastValue [('E', some (eWord y.s (-pr.A)))] 'Z')
+      [(lastValue [('E', some (eWord y.s (-pr.A)))] 'X', lastValue [('E', some (eWord y.s (-pr.A)))] 'Y')] = true
+    then _ else _)
+  simp only [lastValue_single, T.isMoveOf]
+  simp only [show (('E' : Char) == 'Z') = false from by decide, show (('E' : Char) == 'X') = false from by decide,
+    show (('E' : Char) == 'Y') = false from by decide, show (('E' : Char) == 'E') = true from by decide,
+    Bool.false_eq_true, if_false, if_true, Option.isSome_none, List.any_cons, List.any_nil, Bool.or_self]
+  rw [hd]
+  have hA := pr.hA
+  exact ⟨fun _ => ⟨hfw, hr.2.2.2, by ring⟩, fun h => absurd h (by linarith)⟩
+
+/-- the matching recovery is admissible while the file is retracted -/
+theorem recovery_admissible (pr : EProto α) (cfg : Config) (y : Sys α) (hg : GoodE pr y)
+    (hfw : pr.fw = false) (r : Retraction α) (hn : y.s.lastRetraction = some r)
+    (ho : r.recoverExcluded = false) (t : Text) :
+    EDialect pr cfg y.s y.virt.ev "G1" { text := t, words := [('E', some (eWord y.s pr.A))], code := "G1" } := by
+  have hu := hg.good.wf.pos.2.2.2.2
+  have hd := deltaE_eWord y.s pr.A hg.einv.abs hu
+  have hr := hg.einv.retr
+  unfold RetrInv at hr; rw [hn] at hr; simp only [hfw, ho] at hr
+  refine ⟨rfl, ?_⟩
+  show (if T.isMoveOf (lastValue [('E', some (eWord y.s pr.A))] 'Z')
+      [(lastValue [('E', some (eWord y.s pr.A))] 'X', lastValue [('E', some (eWord y.s pr.A))] 'Y')] = true
+    then _ else _)
+  simp only [lastValue_single, T.isMoveOf]
+  simp only [show (('E' : Char) == 'Z') = false from by decide, show (('E' : Char) == 'X') = false from by decide,
+    show (('E' : Char) == 'Y') = false from by decide, show (('E' : Char) == 'E') = true from by decide,
+    Bool.false_eq_true, if_false, if_true, Option.isSome_none, List.any_cons, List.any_nil, Bool.or_self]
+  rw [hd]
+  have hA := pr.hA
+  refine ⟨fun h => absurd h (by linarith), fun _ => ⟨hr.2.1, Or.inr ⟨?_, rfl⟩⟩⟩
+  simpa using hr.2.2.2.2.2
+
+/-- an extruding move to any point is admissible while nothing is recorded (either style) -/
+theorem extruding_move_admissible (pr : EProto α) (cfg : Config) (y : Sys α) (hg : GoodE pr y)
+    (hn : y.s.lastRetraction = none) (x yy d : α) (hd0 : 0 ≤ d) (t : Text) :
+    EDialect pr cfg y.s y.virt.ev "G1"
+      { text := t, words := [('X', some x), ('Y', some yy), ('E', some (eWord y.s d))], code := "G1" } := by
+  have hu := hg.good.wf.pos.2.2.2.2
+  have hd := deltaE_eWord y.s d hg.einv.abs hu
+  have hr := hg.einv.retr
+  rw [hn] at hr
+  have hV : y.virt.ev.depth = 0 ∧ y.virt.ev.fw = false := by
+    unfold RetrInv at hr
+    cases hf : pr.fw <;> simp only [hf] at hr
+    · exact ⟨hr.2.2.2, hr.2.1⟩
+    · exact ⟨hr.2.1, hr.2.2.2⟩
+  refine ⟨rfl, ?_⟩
+  have hE : lastValue [('X', some x), ('Y', some yy), ('E', some (eWord y.s d))] 'E' = some (eWord y.s d) := by
+    simp [lastValue]
+  have hX : lastValue [('X', some x), ('Y', some yy), ('E', some (eWord y.s d))] 'X' = some x := by
+    simp [lastValue]
+  show (if T.isMoveOf (lastValue _ 'Z') [(lastValue _ 'X', lastValue _ 'Y')] = true then _ else _)
+  rw [hE, hX, hd]
+  simp only [T.isMoveOf, List.any_cons, Option.isSome_some, Bool.true_or, Bool.or_true, if_true]
+  exact ⟨hd0, fun _ => hV⟩
+
+end ERP.C05
